@@ -742,6 +742,12 @@ func (lcp *LCPStateMachine) receiveEchoRequest(pkt *LCPPacket) error {
 		return nil
 	}
 
+	// An Echo-Request carries at least the 4-byte Magic-Number field (RFC 1661 5.8);
+	// a shorter one is malformed and silently discarded.
+	if len(pkt.Data) < 4 {
+		return nil
+	}
+
 	// Build Echo-Reply with our magic number
 	replyData := make([]byte, 4+len(pkt.Data)-4)
 	binary.BigEndian.PutUint32(replyData[:4], lcp.config.MagicNumber)
